@@ -32,7 +32,7 @@ var specs = map[string]spec{
 		Rule:      "a state is a distinct generated template (expression x syntactic position x parenthesisation); a transition is one compile+render compared with the reference evaluator; non-trivial = the reference defines the result (value or mandatory error), i.e. not an unspecified cell",
 		Bounds: map[string]string{
 			"quick":    "S1 all 14 binary ops x 50x50 atoms + unary/ternary; S2 all operator pairs in both groupings over 11 operand triples (minimal and full parentheses); S3 20 positions x 70 shapes + atoms; S4 reference chains <=2 accesses on 9 roots; S5 functions incl. calls nested in every argument position; S6 every argument-splicing context; S5/S6 also printed twice after an earlier call; S7 operands arriving as data",
-			"thorough": "adds three-operator nestings (14^3 x 3 shapes x 11 triples) and reference chains of 3 accesses",
+			"thorough": "adds three-operator nestings (14^3 x 3 shapes x 11 triples), reference chains of 3 accesses, and the S1 and S5 strata in every one of the 20 syntactic positions",
 		},
 		Assumptions: commonAssumptions, Plain: true, QuickStride: 1, ThoroughStride: 1, QuickDeadline: 420, ThoroughDeadline: 3000,
 	},
@@ -92,7 +92,7 @@ var specs = map[string]spec{
 		Rule:      "a state is a (modes, route, directive chain) configuration; transitions = renders (counter renders), one per value; non-trivial = the configuration compiled and was rendered for all values",
 		Bounds: map[string]string{
 			"quick":    "5 namespace modes x 4 template modes x all directive chains of length <=2 over 11 directive forms x 530 values; 8 routes x 20 caller modes x 9 callee modes x 8 values; 2 modes x 12x12 directive pairs on one value printed twice in a message, source vs identity bundle, x 7 values",
-			"thorough": "adds chains of length 3 over the six HTML-relevant directive forms",
+			"thorough": "adds all chains of length 3 over the 11 directive forms",
 		},
 		Assumptions: commonAssumptions, Plain: true, QuickStride: 1, ThoroughStride: 1, QuickDeadline: 420, ThoroughDeadline: 3000,
 	},
